@@ -81,6 +81,7 @@ def op_to_val(o):
     if k == 'drop': return [2, o[1]]
     if k == 'reset': return [3, o[1], [[net_to_val(n), mx, a] for n, mx, a in o[2]]]
     if k == 'val': return [4, net_to_val(o[1]), o[2], [[c, list(b)] for c, b in o[3]]]
+    if k == 'valx': return [4, [o[1], list(o[2][1]), o[2][2]], o[3], [[c, list(b)] for c, b in o[4]]]
     if k == 'iter': return [5]
     raise ValueError(o)
 
@@ -91,6 +92,7 @@ def op_to_coq(o):
     if k == 'drop': return '(ODrop %s)' % cN(o[1])
     if k == 'reset': return '(OReset %s %s)' % (cN(o[1]), clist(['(%s, %s, %s)' % (net_to_coq(n), cN(mx), cN(a)) for n, mx, a in o[2]]))
     if k == 'val': return '(OValidate %s %s %s)' % (net_to_coq(o[1]), cN(o[2]), clist([cpair(cN(c), val.cbytes(b)) for c, b in o[3]]))
+    if k == 'valx': return '(OValidateOther %s %s %s %s)' % (cN(o[1]), net_to_coq(o[2]), cN(o[3]), clist([cpair(cN(c), val.cbytes(b)) for c, b in o[4]]))
     if k == 'iter': return 'OIter'
     raise ValueError(o)
 
@@ -125,6 +127,7 @@ def as_list(v): return [v[0], list(v[1]), v[2], v[3], v[4], v[5]]
 
 class Prop:
     pid = 'C12'
+    ops_field = 'ops'
     props_file = 'Props/C12.v'
     required_theorems = []     # filled below
     correspondence_name = ('Model/Rpki.v run_case (validate, insert, remove, drop_source, reset, iter, as_path_origin) vs '
@@ -144,11 +147,25 @@ class Prop:
                    'AS_PATH attribute bytes are a sequence of well-formed segments (enforced by the UPDATE parser); malformed ones are compared with the model (panic) but not judged']
 
     # ---- rendering
-    def case_to_val(self, c): return [op_to_val(o) for o in c['ops']]
-    def case_to_coq(self, c): return '%s %s' % (MODEL_ENTRY, clist([op_to_coq(o) for o in c['ops']]))
+    @staticmethod
+    def api_ops(c):
+        """an API case as a table history: the VRPs (one cache), then one validate per route"""
+        return [('ins', 0, n, mx, a) for n, mx, a in c['vrps']] + [('val', n, la, at) for n, la, at in c['routes']]
+    def case_to_val(self, c):
+        if c.get('kind') == 'api':
+            return [[[net_to_val(n), mx, a] for n, mx, a in c['vrps']],
+                    [[net_to_val(n), la, [[cd, list(b)] for cd, b in at]] for n, la, at in c['routes']]]
+        return [op_to_val(o) for o in c['ops']]
+    def case_to_coq(self, c):
+        ops = self.api_ops(c) if c.get('kind') == 'api' else c['ops']
+        return '%s %s' % (MODEL_ENTRY, clist([op_to_coq(o) for o in ops]))
     def case_to_json(self, c): return json.loads(json.dumps(c))
     def case_from_json(self, j):
         c = dict(j)
+        if j.get('kind') == 'api':
+            c['vrps'] = [(tup(n), mx, a) for n, mx, a in j['vrps']]
+            c['routes'] = [(tup(n), la, [(cb[0], list(cb[1])) for cb in at]) for n, la, at in j['routes']]
+            return c
         ops = []
         for o in j['ops']:
             o = list(o)
@@ -157,6 +174,8 @@ class Prop:
             elif k == 'reset': o[2] = [(tup(n), mx, a) for n, mx, a in o[2]]
             elif k == 'val':
                 o[1] = tup(o[1]); o[3] = [(cb[0], list(cb[1])) for cb in o[3]]
+            elif k == 'valx':
+                o[2] = tup(o[2]); o[4] = [(cb[0], list(cb[1])) for cb in o[4]]
             ops.append(tuple(o))
         c['ops'] = ops
         return c
@@ -335,8 +354,169 @@ class Prop:
                 cases.append({'kind': 'exhaustive', 'ops': ops})
         return cases
 
-    def gen_cases(self, rng, tier):
+    # ---- classes enumerated on EVERY run (no randomness): one per clause of the property text
+    # and per branch / comparison of validate, insert, remove, drop_source, as_path_last_segment
+    def enumerated_cases(self):
         cases = []
+        def add(cls, ops): cases.append({'kind': 'enum', 'cls': cls, 'ops': ops})
+        SQ = lambda *l: [(2, aspath_bytes([(SEQ, list(l))]))]
+        for fam in (4, 6):
+            W = WIDTH[fam]
+            base = ('10' * 64)[:W]                      # alternating bits: every truncation differs
+            # (a) ladder: a VRP at EVERY prefix length 0..W of one address, a route at every length:
+            #     both sides of `len <= mask`, every value of the per-octet keep mask, mask = 0 and = W
+            ops = []
+            for l in range(0, W + 1):
+                ops.append(('ins', l % 2, mk_net(fam, base[:l]), min(255, l + 2), [65001, 65002, 0][l % 3]))
+            for l in range(0, W + 1):
+                ops.append(('val', mk_net(fam, base[:l]), 65000, SQ(65009, [65001, 65002][l % 2])))
+            add('ladder_ipv%d' % fam, ops)
+            # (b) host bits set in the route beyond its length (the lookup must cut them), at every length
+            ops = [('ins', 0, mk_net(fam, base[:l]), W, 65001) for l in (0, 1, 7, 8, 9, W - 1, W)]
+            for l in range(0, W + 1):
+                full = base[:l] + '1' * (W - l)
+                ops.append(('val', (fam, addr_of_bits(fam, full), l), 65000, SQ(65001)))
+            add('route_host_bits_ipv%d' % fam, ops)
+            # (c) siblings and more-specifics at every length: never consulted
+            ops = []
+            for l in range(1, W + 1):
+                sib = base[:l - 1] + ('1' if base[l - 1] == '0' else '0')
+                ops.append(('ins', 0, mk_net(fam, sib), W, 65001))
+            for l in range(0, W + 1, 1 if fam == 4 else 5):
+                ops.append(('val', mk_net(fam, base[:l]), 65000, SQ(65001)))
+            add('siblings_ipv%d' % fam, ops)
+            ops = [('ins', 0, mk_net(fam, base[:l]), W, 65001) for l in range(1, W + 1)]
+            ops += [('val', mk_net(fam, base[:0]), 65000, SQ(65001)), ('val', mk_net(fam, ''), 65001, [])]
+            add('only_more_specific_ipv%d' % fam, ops)
+            # (d) max-length on both sides of the route length, and the u8 extremes
+            for L in (0, 1, 8, W // 2, W - 1, W):
+                ops = []
+                for j, mx in enumerate(sorted({max(0, L - 1), L, min(255, L + 1), 0, 255, W})):
+                    ops.append(('ins', j % 2, mk_net(fam, base[:min(L, j)]), mx, 65001))
+                ops.append(('val', mk_net(fam, base[:L]), 65000, SQ(65001)))
+                ops.append(('val', mk_net(fam, base[:L]), 65000, SQ(65002)))
+                add('maxlen_boundary_ipv%d' % fam, ops)
+        # (e) every emptiness combination of (matched, unmatched_asn, unmatched_length): the priority of the state
+        n16 = mk_net(4, '0000101000000001')
+        parts = {'m': ('ins', 0, mk_net(4, '00001010'), 24, 65001), 'a': ('ins', 0, mk_net(4, '000010100'), 24, 65002),
+                 'l': ('ins', 0, mk_net(4, '0000101000'), 12, 65001)}
+        for mask in range(8):
+            ops = [parts[k] for j, k in enumerate('mal') if mask >> j & 1]
+            ops.append(('ins', 1, mk_net(6, ''), 0, 1))          # the other family never matters
+            if not ops[:-1]: ops.append(('ins', 0, mk_net(4, '1'), 1, 1))   # keep the family non-empty
+            ops.append(('val', n16, 65000, SQ(65001)))
+            add('list_combination_%d' % mask, ops)
+        # (f) AS comparison: AS 0 VRP, AS 0 origin, u32 maximum, origin = local AS
+        for vas in (0, 1, 65000, 65001, 4294967295):
+            ops = [('ins', 0, n16, 16, vas)]
+            for oas in (0, 1, 65000, 65001, 4294967295):
+                ops.append(('val', n16, 65000, SQ(65002, oas)))
+            ops.append(('val', n16, 65000, []))
+            ops.append(('val', n16, 0, []))
+            add('as_matrix', ops)
+        # (g) every AS_PATH shape: origin derivation (each tail type, empty, long, several segments,
+        #     AS numbers whose octets look like segment headers, attribute position, duplicates)
+        hdr_like = [0x02010000, 0x01010101, 0x0201FDE9, 0x02FF0000, 0x00000201]
+        shapes = [
+            ('no_attr', []), ('only_other_attrs', [(1, []), (5, [])]), ('empty_path', [(2, [])]),
+            ('seq_1', SQ(65001)), ('seq_2', SQ(65002, 65001)), ('seq_254', SQ(*([65002] * 253 + [65001]))),
+            ('seq_255', SQ(*([65002] * 254 + [65001]))),
+            ('seq_255_then_seq_1', [(2, aspath_bytes([(SEQ, [65002] * 255), (SEQ, [65001])]))]),
+            ('seq_255_then_set', [(2, aspath_bytes([(SEQ, [65001] * 255), (SET, [65001])]))]),
+            ('set_1', [(2, aspath_bytes([(SET, [65001])]))]), ('set_255', [(2, aspath_bytes([(SET, [65001] * 255)]))]),
+            ('seq_then_set', [(2, aspath_bytes([(SEQ, [65001]), (SET, [65001, 65000])]))]),
+            ('set_then_seq', [(2, aspath_bytes([(SET, [65002]), (SEQ, [65001])]))]),
+            ('confed_seq', [(2, aspath_bytes([(CSEQ, [65001])]))]), ('confed_set', [(2, aspath_bytes([(CSET, [65001])]))]),
+            ('seq_then_confed_seq', [(2, aspath_bytes([(SEQ, [65001]), (CSEQ, [65002])]))]),
+            ('seq_then_confed_set', [(2, aspath_bytes([(SEQ, [65001]), (CSET, [65002])]))]),
+            ('confed_then_seq', [(2, aspath_bytes([(CSEQ, [65002]), (CSET, [65002]), (SEQ, [65001])]))]),
+            ('five_segments', [(2, aspath_bytes([(SEQ, [1]), (SET, [2]), (CSEQ, [3]), (CSET, [4]), (SEQ, [5, 65001])]))]),
+            ('as0_tail', SQ(65001, 0)), ('as_max_tail', SQ(65001, 4294967295)),
+            ('two_as_path_attrs', [(2, aspath_bytes([(SEQ, [65001])])), (2, aspath_bytes([(SET, [65002])]))]),
+            ('two_as_path_attrs_rev', [(2, aspath_bytes([(SET, [65002])])), (2, aspath_bytes([(SEQ, [65001])]))]),
+            ('as_path_last_attr', [(1, []), (3, []), (4, []), (5, []), (2, aspath_bytes([(SEQ, [65001])]))]),
+        ] + [('header_like_as_%08x' % a, [(2, aspath_bytes([(SEQ, [a, 65001])]))]) for a in hdr_like] \
+          + [('header_like_tail_%08x' % a, [(2, aspath_bytes([(SEQ, [65001, a])]))]) for a in hdr_like]
+        # byte strings the UPDATE parser would refuse but the API can inject: compared with the model only
+        good = aspath_bytes([(SEQ, [65002, 65001])])
+        shapes += [('malformed_%d' % j, [(2, b)]) for j, b in enumerate(
+            [[SEQ], [SEQ, 0], [SET, 0], good[:-1], good[:-4], good[:3], good + [SEQ], good + [SEQ, 1], good + [SET, 1, 0, 0],
+             good + [0, 1, 0, 0, 0, 1], good + [5, 1, 0, 0, 0, 1], good + [255, 1, 0, 0, 0, 1], [SEQ, 0] + good, good + [SEQ, 0]])]
+        for name, attrs in shapes:
+            ops = [('ins', 0, n16, 16, 65001), ('ins', 1, n16, 16, 65000), ('val', n16, 65000, attrs),
+                   ('rem', 1, n16, 16, 65000), ('val', n16, 65000, attrs), ('val', n16, 65001, attrs)]
+            add('aspath_' + name.split('_%')[0] if name.startswith('header_like') else 'aspath_' + name, ops)
+        # (h) the set keyed by (cache, prefix, max-length, AS): variants differing in exactly one component
+        base_v = (0, (4, (10, 1, 0, 0), 16), 24, 65001)
+        variants = [(1, base_v[1], 24, 65001), (0, (4, (10, 1, 0, 0), 17), 24, 65001), (0, (4, (10, 1, 0, 1), 16), 24, 65001),
+                    (0, base_v[1], 25, 65001), (0, base_v[1], 24, 65002), (0, (6, tuple([10, 1] + [0] * 14), 16), 24, 65001)]
+        ops = [('ins',) + base_v, ('ins',) + base_v]
+        for v in variants: ops += [('ins',) + v, ('ins',) + v]
+        for v in variants: ops += [('rem',) + v, ('rem',) + v]
+        ops += [('rem',) + base_v, ('iter',), ('val', (4, (10, 1, 0, 0), 16), 65000, SQ(65001)), ('rem',) + base_v]
+        add('set_single_component_variants', ops)
+        ops = []
+        for v in [base_v] + variants: ops.append(('ins',) + v)
+        ops += [('drop', 2), ('drop', 1), ('iter',), ('drop', 0), ('drop', 0), ('iter',),
+                ('reset', 0, [(base_v[1], 24, 65001), (base_v[1], 24, 65001), (base_v[1], 25, 65001)]),
+                ('reset', 0, []), ('reset', 1, [(base_v[1], 24, 65001)]), ('ins',) + base_v, ('reset', 0, [(variants[5][1], 24, 1)]),
+                ('drop', 1), ('iter',)]
+        add('set_drop_and_reset', ops)
+        ops = [('rem',) + base_v, ('drop', 0), ('reset', 0, []), ('iter',), ('ins',) + base_v, ('rem', 0, base_v[1], 24, 65001),
+               ('val', base_v[1], 65000, SQ(65001)), ('ins', 0, variants[5][1], 24, 65001), ('val', base_v[1], 65000, SQ(65001)),
+               ('val', variants[5][1], 65000, SQ(65001))]
+        add('set_on_empty_and_last_removed', ops)
+        # (i) routes of non-IP families carrying the same prefix: no state, no policy match
+        ops = [('ins', 0, n16, 16, 65001), ('ins', 0, (6, tuple([10, 1] + [0] * 14), 16), 16, 65001)]
+        for kind, net in ((14, n16), (24, n16), (16, (6, tuple([10, 1] + [0] * 14), 16)), (26, (6, tuple([10, 1] + [0] * 14), 16))):
+            ops.append(('valx', kind, net, 65000, SQ(65001)))
+            ops.append(('valx', kind, net, 65000, []))
+        ops.append(('val', n16, 65000, SQ(65001)))
+        add('non_ip_nlri', ops)
+        add('non_ip_nlri_empty_table', [('valx', 14, n16, 65000, SQ(65001)), ('valx', 26, (6, tuple([0] * 16), 0), 65000, [])])
+        # (j) VRP prefix lengths beyond the address width and at it (the RTR decoder does not check them)
+        ops = [('ins', 0, (4, (10, 1, 0, 0), 33), 40, 65001), ('ins', 0, (4, (10, 1, 0, 0), 255), 255, 65001),
+               ('ins', 0, (4, (10, 1, 0, 0), 32), 32, 65001), ('val', (4, (10, 1, 0, 0), 32), 65000, SQ(65001)), ('iter',),
+               ('rem', 0, (4, (10, 1, 0, 0), 255), 255, 65001), ('iter',)]
+        add('vrp_length_beyond_width', ops)
+        # (k) the API annotation (TableManager::collect_paths): ladders, AS_PATH shapes, the other family
+        def api(cls, vrps, routes): cases.append({'kind': 'api', 'cls': cls, 'vrps': vrps, 'routes': routes})
+        for fam in (4, 6):
+            W = WIDTH[fam]; base = ('10' * 64)[:W]
+            vr = [(mk_net(fam, base[:l]), min(255, l + 2), [65001, 65002, 0][l % 3]) for l in range(0, W + 1, 1 if fam == 4 else 7)]
+            api('api_ladder_ipv%d' % fam, vr, [(mk_net(fam, base[:l]), 65000, SQ(65009, [65001, 65002][l % 2])) for l in range(0, W + 1)])
+        api('api_aspath_shapes', [(mk_net(4, '0000101000000001'), 24, 65001), (mk_net(4, '0000101000000001'), 24, 65000)],
+            [((4, (10, 1, j, 0), 24), 65000, attrs) for j, (name, attrs) in enumerate(shapes)])
+        api('api_other_family_only', [(mk_net(4, '00001010'), 24, 65001)],
+            [((6, tuple([0x20, 1] + [0] * 14), 32), 65000, SQ(65001)), ((4, (10, 1, 0, 0), 16), 65000, SQ(65001)),
+             ((4, (11, 1, 0, 0), 16), 65000, SQ(65001))])
+        api('api_empty_table', [], [((4, (10, 1, 0, 0), 16), 65000, SQ(65001)), ((6, tuple([0] * 16), 0), 65000, [])])
+        return cases
+
+    def api_random_case(self, rng):
+        fam = rng.choice([4, 4, 6]); W = WIDTH[fam]
+        base = ''.join(rng.choice('01') for _ in range(W))
+        vr = []
+        for _ in range(rng.randint(1, 6)):
+            l = rng.randint(0, W); bs = base[:l]
+            if rng.random() < 0.3 and l:
+                k = rng.randrange(l); bs = bs[:k] + ('1' if bs[k] == '0' else '0') + bs[k + 1:]
+            vr.append((mk_net(fam, bs), rng.choice([l, min(W, l + 3), W]), rng.choice(ASNS)))
+        routes, seen = [], set()
+        for _ in range(rng.randint(2, 8)):
+            l = rng.randint(0, W); bs = base[:l]
+            if rng.random() < 0.3 and l:
+                k = rng.randrange(l); bs = bs[:k] + ('1' if bs[k] == '0' else '0') + bs[k + 1:]
+            n = mk_net(fam, bs)
+            if n in seen: continue
+            seen.add(n)
+            local = rng.choice(LOCALS)
+            tag, attrs = self.attrs_for(rng, local)
+            routes.append((n, local, attrs))
+        return {'kind': 'api', 'vrps': vr, 'routes': routes}
+
+    def gen_cases(self, rng, tier):
+        cases = self.enumerated_cases()
         # hand-written seeds: the two directions of the lookup, AS 0, AS_SET, empty table
         n = lambda a, b, c, d, m: (4, (a, b, c, d), m)
         sq = lambda *l: [(2, aspath_bytes([(SEQ, list(l))]))]
@@ -363,9 +543,12 @@ class Prop:
                                      ('reset', 0, [(n(10, 2, 0, 0, 16), 16, 1), (n(10, 2, 0, 0, 16), 16, 1)]), ('drop', 0), ('iter',)]},
         ]
         nh, nr, nn = (1500, 400, 150) if tier == 'quick' else (8000, 2000, 600)
+        sc = float(os.environ.get('VERIF_RANDOM_SCALE', '1'))     # mutation self-tests: enumerated classes + a thin random sample
+        nh, nr, nn = int(nh * sc), int(nr * sc), int(nn * sc)
         for _ in range(nh): cases.append(self.history_case(rng, tier))
         for _ in range(nr): cases.append(self.real_case(rng, rng.choice([4, 4, 6])))
         for _ in range(nn): cases.append(self.history_case(rng, tier, noncanon=True))
+        for _ in range(60 if tier == 'quick' else 400): cases.append(self.api_random_case(rng))
         if tier == 'quick':
             cases += self.exhaustive_cases(4, '0000101', 2, 2)           # window straddling the first octet boundary
         else:
@@ -377,20 +560,41 @@ class Prop:
 
     # ---- running
     def run_impl(self, cases, tier):
-        return rustrun.crate_bin('C12', 'hx-rpki', '', [self.case_to_val(c) for c in cases])
+        """table histories through the crate harness; API cases through the daemon hook
+        (TableManager::insert_route + collect_paths)"""
+        ia = [k for k, c in enumerate(cases) if c.get('kind') == 'api']
+        it = [k for k, c in enumerate(cases) if c.get('kind') != 'api']
+        out = [None] * len(cases)
+        if it:
+            r, err = rustrun.crate_bin('C12', 'hx-rpki', '', [self.case_to_val(cases[k]) for k in it])
+            if r is None: return None, err
+            for k, o in zip(it, r): out[k] = o
+        if ia:
+            r, err = rustrun.daemon_test('C12api', 'rpki::verif_hx::verif_rpki_api_cases', [self.case_to_val(cases[k]) for k in ia])
+            if r is None: return None, err
+            for k, o in zip(ia, r): out[k] = o
+        return out, ''
 
     def run_model(self, cases, tier):
         pre = 'From RB Require Import Base.Val Model.Rpki Model.RpkiPre.\nOpen Scope N_scope.'
-        return coqrun.eval_terms('C12', pre, [self.case_to_coq(c) for c in cases])
+        r, err = coqrun.eval_terms('C12', pre, [self.case_to_coq(c) for c in cases])
+        if r is None: return r, err
+        out = []
+        for c, o in zip(cases, r):
+            if c.get('kind') == 'api' and o != [-1]:
+                # what collect_paths shows of each validate result: state, reason and the sizes of the lists
+                o = [[[[v[0], v[1], len(v[2]), len(v[3]), len(v[4])] for v in ob[0]]] for ob in o[len(c['vrps']):]]
+            out.append(o)
+        return out, ''
 
     def canon(self, case, obs):
         """list-valued observations are compared as sorted lists (the trie's key order and the
         order inside matched/unmatched lists are not part of the property)"""
-        if obs == [-1]: return obs
+        if obs == [-1] or case.get('kind') == 'api': return obs
         out = []
         for o, ob in zip(case['ops'], obs):
-            if o[0] == 'val':
-                out.append([[r[0], r[1], sorted(r[2]), sorted(r[3]), sorted(r[4])] for r in ob])
+            if o[0] in ('val', 'valx'):
+                out.append([[[r[0], r[1], sorted(r[2]), sorted(r[3]), sorted(r[4])] for r in ob[0]], ob[1]])
             else:
                 out.append(sorted(ob))
         return out
@@ -398,6 +602,8 @@ class Prop:
     # ---- Spec oracle (property text / RFC 6811), judging the implementation's observations
     def failures(self, c, obs):
         """-> list of (op index, class tag, text)"""
+        if c.get('kind') == 'api' and obs != [-1]:
+            return self.api_failures(c, obs)
         if obs == [-1]:
             if any(o[0] == 'val' and origin_rfc6811(o[2], o[3])[0] == 'malformed' for o in c['ops']):
                 return []        # assumption: AS_PATH bytes are well-formed
@@ -406,6 +612,11 @@ class Prop:
         T = SpecTable()
         for k, (o, ob) in enumerate(zip(c['ops'], obs)):
             T.apply(o)
+            if o[0] == 'valx':
+                # a route of a non-IP family has no RFC 6811 state: no result, no `rpki` condition holds
+                if ob[0] != [] or ob[1] != [0, 0, 0]:
+                    fails.append((k, 'non-ip', 'op %d: a validation state is claimed for a non-IP route (kind %d)' % (k, o[1])))
+                continue
             if o[0] != 'val':
                 if sorted(ob) != T.dump():
                     fails.append((k, 'set', 'op %d (%s): installed VRPs differ from the set keyed by (cache, prefix, max-length, AS)' % (k, o[0])))
@@ -419,11 +630,16 @@ class Prop:
                 continue
             st, matched, unm = validate_spec(vr, route, origin)
             names = ['NotFound', 'Valid', 'Invalid']
+            ob, pol = ob[0], ob[1]
             if ob == []:
                 cls = 'family-empty' if not vr else 'none'
                 fails.append((k, cls, 'op %d: validate returned no result for %s/%d; RFC 6811 state is %s' % (
                     k, '.'.join(map(str, route[1])), route[2], names[st])))
                 continue
+            # the state used by policy: exactly the condition `rpki <RFC 6811 state>` holds
+            if pol != [1 if j == st else 0 for j in range(3)]:
+                fails.append((k, 'policy', 'op %d: route %s/%d: policy conditions rpki not-found/valid/invalid evaluate to %s, RFC 6811 state is %s' % (
+                    k, '.'.join(map(str, route[1])), route[2], pol, names[st])))
             r = ob[0]
             cls = 'state'
             if origin[0] == 'none' and any(x[4] == local and x[4] != 0 and route[2] <= x[3] for x in vr if covers((x[0], x[1], x[2]), route)):
@@ -438,6 +654,30 @@ class Prop:
                 fails.append((k, cls, 'op %d: unmatched lists are not the covering, non-matching VRPs' % k))
             elif any(route[2] <= v[3] for v in r[4]) or any(route[2] > v[3] for v in r[3]):
                 fails.append((k, cls, 'op %d: unmatched_length / unmatched_asn split is wrong' % k))
+        return fails
+
+    def api_failures(self, c, obs):
+        """the state shown by the API (collect_paths) for every listed route"""
+        fails = []
+        names = ['NotFound', 'Valid', 'Invalid']
+        vset = {vrp_key(n[0], n[1], n[2], mx, a, 0) for n, mx, a in c['vrps']}
+        for k, ((route, local, attrs), ob) in enumerate(zip(c['routes'], obs)):
+            if ob == []:
+                fails.append((k, 'api', 'route %d is not listed by collect_paths' % k)); continue
+            vr = [x for x in vset if x[0] == route[0]]
+            if any(not canonical((x[0], x[1], x[2])) for x in vr): continue
+            origin = origin_rfc6811(local, attrs)
+            if origin[0] == 'malformed': continue
+            st, matched, unm = validate_spec(vr, route, origin)
+            if ob[0] == []:
+                fails.append((k, 'family-empty' if not vr else 'api',
+                              'route %d (%s/%d): the API shows no validation state; RFC 6811 state is %s' % (k, '.'.join(map(str, route[1])), route[2], names[st])))
+                continue
+            v = ob[0][0]
+            if v[0] != st:
+                fails.append((k, 'api', 'route %d (%s/%d): the API shows %s, RFC 6811 requires %s' % (k, '.'.join(map(str, route[1])), route[2], names[v[0]], names[st])))
+            elif v[2] != len(matched) or v[3] + v[4] != len(unm):
+                fails.append((k, 'api', 'route %d: the API lists %d matched / %d unmatched VRPs, RFC 6811 gives %d / %d' % (k, v[2], v[3] + v[4], len(matched), len(unm))))
         return fails
 
     KNOWN_CLASS = {'C12-3': 'family-empty'}
@@ -461,7 +701,7 @@ class Prop:
         """relation of every validated route to the VRPs installed at that point"""
         T = SpecTable()
         rel = []
-        for o in c['ops']:
+        for o in (self.api_ops(c) if c.get('kind') == 'api' else c['ops']):
             T.apply(o)
             if o[0] == 'val':
                 r = o[1]
@@ -476,6 +716,11 @@ class Prop:
         return rel
 
     def nontrivial_key(self, c, obs):
+        if c.get('kind') == 'api':
+            if obs == [-1]: return ('panic', 'api')
+            rel = self.relations(c)
+            if not any(set(t) & {'exact', 'covering', 'more_specific'} for t in rel): return None
+            return ('api', tuple(rel), tuple((ob[0][0][0] if ob and ob[0] else -1) for ob in obs))
         if obs == [-1]: return ('panic', tuple(o[0] for o in c['ops']))
         rel = self.relations(c)
         interesting = any(set(t) & {'exact', 'covering', 'more_specific'} for t in rel)
@@ -484,11 +729,17 @@ class Prop:
             if o[0] in ('ins', 'rem') and any(x[:3] == (o[2][0], tuple(o[2][1]), o[2][2]) for x in T.s): hit = True
             T.apply(o)
         if not interesting and not hit: return None
-        states = tuple((ob[0][0] if ob else -1) for o, ob in zip(c['ops'], obs) if o[0] == 'val')
+        states = tuple((ob[0][0][0] if ob[0] else -1) for o, ob in zip(c['ops'], obs) if o[0] == 'val')
         return (tuple(o[0] for o in c['ops']), tuple(rel), states)
 
     def classify(self, c, obs):
         tags = ['kind_' + c.get('kind', '?')]
+        if c.get('cls'): tags.append('enum_' + c['cls'])
+        if c.get('kind') == 'api':
+            tags.append('api_annotation')
+            for ob in (obs if obs != [-1] else []):
+                tags.append('api_state_%s' % ('unlisted' if ob == [] else 'none' if ob[0] == [] else ['NotFound', 'Valid', 'Invalid'][ob[0][0][0]]))
+            return sorted(set(tags))
         fams = {o[1][0] for o in c['ops'] if o[0] == 'val'}
         tags += ['val_ipv%d' % f for f in sorted(fams)]
         for t in set(x for r in self.relations(c) for x in r): tags.append('rel_' + t)
@@ -500,14 +751,15 @@ class Prop:
                 else: tags.append('mask_on_octet')
         if obs != [-1]:
             for o, ob in zip(c['ops'], obs):
-                if o[0] == 'val': tags.append('state_%s' % (['NotFound', 'Valid', 'Invalid'][ob[0][0]] if ob else 'none'))
+                if o[0] == 'val': tags.append('state_%s' % (['NotFound', 'Valid', 'Invalid'][ob[0][0][0]] if ob[0] else 'none'))
+                if o[0] == 'valx': tags.append('non_ip_nlri_%d' % o[1])
         else:
             tags.append('panic')
         return sorted(set(tags))
 
 Prop.required_theorems = [
     'validate_code_eq_rfc6811_outside_known', 'validate_code_eq_rfc6811_refuted', 'validate_none_iff_known',
-    'validate_matched_exact', 'noncovering_vrps_irrelevant', 'origin_code_eq_rfc6811',
+    'validate_matched_exact', 'noncovering_vrps_irrelevant', 'policy_condition_eq_rfc6811_outside_known', 'policy_condition_known', 'origin_code_eq_rfc6811',
     'rfc6811_state_characterised', 'mask_bytes_eq_prefix_bits',
     'vrp_table_refines_set', 'vrp_history_refines_set', 'iter_lists_installed',
     'validate_pre_refuted_covering', 'validate_pre_refuted_more_specific', 'validate_pre_refuted_as_set',
